@@ -16,11 +16,91 @@ META = {
         note="bounded stand-in only; synthesised model strings are one per sequence; known finding: ambiguous short-name alias SN",
     ),
 }
+
+_B = "bounded run-time contracts on the real entry points (labelled stand-in, never counted as proved)"
+META.update({
+    "C06": dict(
+        technique="contract-based deductive verification of apply_acl / apply_acl_diff (AST->VC, loop invariants, z3+cvc5) relative to an assumed contract of the matcher; lemmas over the spec functions; " + _B,
+        text="exploration + proved links: apply_acl is proved equal to spec_filter for every tree and rule set (order-preserving, children by the "
+             "children rules, reverse rows of undeletable rules dropped), with AclError/AclNotExclusiveError raised iff and where the spec says; "
+             "lemmas prove sub-tree, idempotence, strict-mode-iff-uncovered over the spec. All of it is RELATIVE to the opaque matcher "
+             "match_row_to_acl; the matcher itself, the ACL compiler and merge monotonicity are decided by the bounded layer against an "
+             "independent reference matcher (3 known findings: %global coverage, merge monotonicity).",
+        note="assumed contract: match_row_to_acl (opaque macl); bounded: <=2-line ACL texts x trees depth<=3 (exhaustive) + random",
+    ),
+    "C07": dict(
+        technique="per-pattern regular-language equivalence (compiled regexp vs rule-language reference) decided by z3's regex theory for ALL rows; " + _B + " for keys, reverse templates, flags, deploy matching",
+        text="exploration + proved sub-obligations: for 1773 enumerated patterns (grammar <=3/4 tokens and every rule of the shipped patching and "
+             "ordering rulebooks of 14 vendors) the language of the real compiled regexp equals the reference built from the tokens by the prose, "
+             "over all rows (unbounded in the row; the pattern quantifier is enumerated). 11 shipped patterns with look-around / inner anchors are "
+             "skipped. Keys, removal templates, (?i), ACL/deploy compilers: bounded layer (exhaustive rows <=5 words).",
+        note="trusted: re->z3 translation (A11), row domain ASCII without leading/trailing blanks; 1 known finding ((?i) + negation prefix), 1 fixed",
+    ),
+    "C08": dict(
+        technique="contract-based deductive verification of the logic functions' emission order (lemma removal_before_recreation); " + _B + " for rank semantics and order_config",
+        text="exploration + proved links: undo_redo/ordered/default are proved to emit a key's removal before its re-creation (lemma over their "
+             "proved contracts). Rank semantics, permutation and idempotence of PatchTree.sort / order_config, independence of unrelated rows: "
+             "bounded layer (synthetic disjoint ordering rulebooks, shipped *.order files on the corpus). 2 known findings.",
+        note="Orderer.get_order / order_config / PatchTree.sort not under a discharged contract",
+    ),
+    "C09": dict(
+        technique="contract-based deductive verification of common.apply (loop-free: complete path enumeration, z3+cvc5) and lemma no_commit_when_disabled; " + _B + " for flattening and deploy rule parameters",
+        text="exploration + proved links: common.apply is proved equal to the pinned per-vendor session table for all hardware flags (hierarchy axiom "
+             "as precondition) and the no-commit-when-disabled lemma is proved over it. patch()/cmd_paths agreement, block exits, "
+             "apply_deploy_rulebook body and per-rule timeouts: bounded layer (PatchTrees depth<=4, 12 hardware models, corpus). 3 known findings "
+             "(cmd_paths dict collapses repeated commands).",
+        note="formatter flattening and apply_deploy_rulebook bounded only",
+    ),
+    "C10": dict(
+        technique="contract-based deductive verification of apply_acl (strict mode raises iff uncovered: lemma strict_iff_uncovered) relative to the assumed matcher contract; " + _B,
+        text="exploration + proved links: apply_acl(fatal_acl=True) raises AclError iff the spec finds an uncovered row at a covered parent (proved, "
+             "relative to the opaque matcher). Generator programs through the real _run_partial_generator/_old_new_per_device, exclusivity and "
+             "union: bounded layer (random programs <=6 statements, depth<=3). 1 known finding (reverse row of an undeletable rule vanishes).",
+        note="merge_dicts, match_row_to_acl(exclusive) and TreeGenerator bookkeeping are not under discharged contracts",
+    ),
+    "C13": dict(
+        technique=_B + "; no deductive obligations (jsonpointer/jsonpatch/fnmatch cannot be brought under contract)",
+        text="exploration: fragment confinement, idempotence, patch round trip, filters return sub-documents, inputs unmodified, chaining = sequential "
+             "application, over all key-presence shapes of one schema (keys with '/', '~', '|', '*') x 342 pointer lists (strided) + random. "
+             "1 fixed (pointer escaping), 1 known finding (sorted patch breaks array ops).",
+        note="bounded stand-in only",
+    ),
+    "C14": dict(
+        technique=_B + "; no deductive obligations (no contract within reach states ACL coverage of the vendor dispatch code)",
+        text="exploration: RouteMap programs from 68 condition and 74 action atoms (singletons, pairs, seeded random programs) x 3 entity sets x "
+             "huawei/arista (through _run_partial_generator with use_acl) and cumulus: no uncovered line, parse-back nesting, referenced lists "
+             "defined, error-before-lines. 2 fixed, 8 known findings (rows emitted before the rejection).",
+        note="bounded stand-in only",
+    ),
+    "C15": dict(
+        technique=_B + "; no deductive obligations yet (mergers are small enough for contracts but not done)",
+        text="exploration: mirrored peers/AS/families/interfaces for 30-34 topologies x rule templates x handler specs, all registration orders; "
+             "merge laws per declared merger on seeded model instances (order independence, associativity, unset never overrides).",
+        note="bounded stand-in only",
+    ),
+    "C19": dict(
+        technique="contract-based deductive verification of RunGeneratorResult.add_entire / new_files (AST->VC, z3) + induction lemmas (fold of add_entire dominates every listed result); " + _B + " for upload/reload/diff",
+        text="exploration + proved links: add_entire and new_files are proved against their specs for all states; lemmas prove that folding "
+             "add_entire over ANY sequence leaves, per path, an entry with at least every listed priority (=> arg-max, order-independent with "
+             "distinct prios). Upload iff differs, bytes, reload, diff-empty-iff-equal: bounded layer through run_file_generators and "
+             "PCDeployerJob.parse_result. 6 known findings (splitlines-based differ).",
+        note="PCDeployerJob.parse_result / pc_diff / differ bounded only; None path modelled as empty string",
+    ),
+    "C20": dict(
+        technique="frame / effect obligations inferred from the real source (modular syntactic effect analysis) for all 55 shipped logic functions and the diff/patch path; frame obligations of the proved contracts; " + _B + " for cross-history equality",
+        text="exploration + proved frames: every shipped %logic function mutates at most rule/diff, every %diff_logic at most old/new/diff_pre, none "
+             "writes module state; make_diff, apply_acl(_diff), mark/strip_unchanged, make_pre, order_config, get_order modify none of their "
+             "arguments (except the declared ACL scratch field). Result equality after arbitrary job histories vs a fresh interpreter, "
+             "snapshots of old/new/rulebook: bounded layer (corpus + synthetic mutating logics).",
+        note="effect inference is an upper bound with a fixed purity table for non-annet callees; caches not modelled deductively",
+    ),
+})
+
 _PENDING = "check not built yet in this round (planned in DESIGN.md section 5); no claim is made"
 NOT_APPLICABLE = {
     "C12": "schedules / fault sequences of an OS process pool (multiprocessing queues, worker exit codes): no contract on a call or a data structure expresses it and no verifier here models multiprocessing; a proof would be about a hand-written model, which is a different family (DESIGN.md section 5, C12)",
 }
-for _p in ["C01", "C02", "C03", "C04", "C06", "C07", "C08", "C09", "C10", "C11", "C13", "C14", "C15", "C16", "C17", "C19", "C20"]:
+for _p in ["C01", "C02", "C03", "C04", "C11", "C16", "C17"]:
     NOT_APPLICABLE.setdefault(_p, _PENDING)
 NOTES = ("Exit codes of every check: 0 held, 1 VIOLATION, 2 undecided, 3 checker broken. Level 'proof' is claimed only where every "
          "clause is covered by discharged obligations; everything bounded is labelled and never added to obligations/discharged.")
